@@ -89,6 +89,7 @@ structure Hist where
   /-- instrumentation: the handler's own state and registry, as last sampled -/
   gwState : CState := .disconnected
   gwReg : List (UInt16 × Bytes) := []
+  gwBuf : List Bytes := []
   endedAt : Option Nat := none
   deriving Repr
 
@@ -139,6 +140,7 @@ def Hist.afterStep (h : Hist) (s : Step) : Hist :=
     | .state st => { h with gwState := st, asleep := st == .asleep }
     | .reg l => { h with gwReg := l }
     | .buf l =>
+      let h := { h with gwBuf := l }
       -- REGISTERs queued for the sleeping client are REGISTERs the gateway issued
       l.foldl (fun h b => match decode b with
         | .ok (_, .register tid mid name) =>
@@ -563,23 +565,142 @@ def c10 (tr : List TE) (tEnd : Nat) : List Viol :=
   | _ => []
 
 /-! ## C11 — sleeping clients -/
+def clearDup (b : Bytes) : Bytes :=
+  match decode b with
+  | .ok (_, .publish _ q r tit t m d) => encode (.publish false q r tit t m d)
+  | _ => b
+
+/-- `xs` occurs in `ys` as a subsequence -/
+def isSubseq : List Bytes → List Bytes → Bool
+  | [], _ => true
+  | _ :: _, [] => false
+  | x :: xs, y :: ys => if x == y then isSubseq xs ys else isSubseq (x :: xs) ys
+
 def c11 (tr : List TE) : List Viol :=
   overSteps tr fun h s =>
     if h.ended then [] else
-    match s.snIn with
-    | some (.pingreq _) =>
-      if h.asleep && h.live s then
-        -- the flush ends with PINGRESP
-        (match s.snOuts.getLast? with
-         | some .pingresp => []
-         | _ => [{ sig := "wakeup-not-ended-by-pingresp", detail := s!"t={s.t}" }])
-      else []
-    | some (.connect ..) => []
-    | some (.disconnect _) => []
-    | _ =>
-      if h.asleep && !s.snOuts.isEmpty && !s.hasEnded then
-        [{ sig := "datagram-sent-to-sleeping-client", detail := s!"t={s.t}" }]
-      else []
+    let isPingresp := fun (b : Bytes) => decode b == .ok (Header.new Gen.tPINGRESP 0, .pingresp)
+    -- the gateway's own keep-alive replies are never queued for the client
+    let vq := (s.outs ++ s.later).flatMap fun (t, o) => match o with
+      | .buf l => if l.any isPingresp then [{ sig := "pinger-reply-queued-for-client", detail := s!"t={t}" : Viol }] else []
+      | _ => []
+    let sent : List Bytes := s.outs.filterMap fun (_, o) => match o with | .sn b => some b | _ => none
+    let v := match s.snIn with
+      | some (.pingreq _) =>
+        if h.asleep && h.live s then
+          -- everything that was queued, in order, each once, then exactly one PINGRESP at the end
+          let body := sent.dropLast
+          (match sent.getLast? with
+           | some b => if isPingresp b then [] else [{ sig := "wakeup-not-ended-by-pingresp", detail := s!"t={s.t}" : Viol }]
+           | none => [{ sig := "wakeup-not-ended-by-pingresp", detail := s!"t={s.t}" }]) ++
+          (if body.any isPingresp then [{ sig := "extra-pingresp-in-wakeup-flush", detail := s!"t={s.t}" : Viol }] else []) ++
+          (if isSubseq (h.gwBuf.map clearDup) (body.map clearDup) then [] else
+            [{ sig := "queued-packet-lost-or-reordered", detail := s!"t={s.t}" : Viol }]) ++
+          []
+        else []
+      | some (.connect ..) => []
+      | some (.disconnect _) => []
+      | _ =>
+        if h.asleep && !sent.isEmpty && !s.hasEnded then
+          [{ sig := "datagram-sent-to-sleeping-client", detail := s!"t={s.t}" }]
+        else []
+    -- timers must not send to a sleeping client either
+    let vt := if h.asleep && (s.later.any fun (_, o) => match o with | .sn _ => true | _ => false) &&
+        !(s.later.any fun (_, o) => match o with | .ended _ => true | _ => false) &&
+        !(match s.snIn with | some (.pingreq _) => true | some (.connect ..) => true | some (.disconnect _) => true | _ => false)
+      then [{ sig := "datagram-sent-to-sleeping-client", detail := s!"t={s.t} (timer)" : Viol }] else []
+    vq ++ v ++ vt
+
+/-! ## C06 — exchanges started by each side never interfere -/
+structure Exchg where
+  kind : String        -- "client-pub1" | "subscribe" | "broker-pub1" | "broker-pub2"
+  mid : UInt16
+  t0 : Nat             -- opened
+  tLast : Nat          -- last (re)transmission / progress
+  stage : Nat := 0     -- broker-pub2: 0 awaiting PUBREC, 1 awaiting PUBREL, 2 awaiting PUBCOMP
+  deriving Repr
+
+def c06 (cfg : Cfg) (tr : List TE) : List Viol :=
+  let budget := (cfg.retryCount + 1) * cfg.retryDelay
+  let (_, _, _, vs) := (steps tr).foldl (fun (acc : Hist × List Exchg × List (UInt16 × Nat × String) × List Viol) s =>
+    let (h, open_, opens, vs) := acc
+    let live := h.live s && connected h && !h.asleep
+    -- was another exchange with the same message ID opened while this one was in progress?
+    let others := fun (e : Exchg) =>
+      let os := opens.filter fun (m, t, _) => m == e.mid && t + budget + cfg.retryDelay ≥ e.t0 && t ≤ s.t
+      -- drop one opening of the exchange's own kind (itself)
+      let ks := os.map fun (_, _, k) => k
+      let ks := match ks.idxOf? e.kind with | some i => ks.eraseIdx i | none => ks
+      (ks.eraseDups.toArray.qsort (· < ·)).toList
+    let miss := fun (e : Exchg) (what : String) =>
+      let ks := others e
+      [{ sig := s!"ack-lost/{e.kind}/{what}{if ks.isEmpty then "" else "/same-msgid-collision/with=" ++ String.intercalate "+" ks}", detail := s!"t={s.t} mid={e.mid}" : Viol }]
+    let find := fun (kind : String) (mid : UInt16) (stage : Nat) =>
+      open_.find? fun (e : Exchg) => e.kind == kind && e.mid == mid && e.stage == stage
+    -- expectations raised by this step's input
+    let v := if !live then [] else
+      match s.snIn, s.mqIn with
+      | _, some (.puback m) =>
+        (match find "client-pub1" m 0 with
+         | some e => if s.t < e.t0 + cfg.retryDelay && !(s.snOuts.any fun p => match p with | .puback _ m2 _ => m2 == m | _ => false)
+                     then miss e "puback-not-delivered" else []
+         | none => [])
+      | _, some (.suback m _ [_]) =>
+        (match find "subscribe" m 0 with
+         | some e => if s.t < e.t0 + cfg.retryDelay && !(s.snOuts.any fun p => match p with | .suback _ _ m2 _ => m2 == m | _ => false)
+                     then miss e "suback-not-delivered" else []
+         | none => [])
+      | some (.puback _ m 0), _ =>
+        (match find "broker-pub1" m 0 with
+         | some e => if s.t < e.tLast + cfg.retryDelay && !(s.mqOuts.contains (.puback m)) then miss e "puback-not-relayed" else []
+         | none => [])
+      | some (.pubrec m), _ =>
+        (match find "broker-pub2" m 0 with
+         | some e => if s.t < e.tLast + cfg.retryDelay && !(s.mqOuts.contains (.pubrec m)) then miss e "pubrec-not-relayed" else []
+         | none => [])
+      | _, some (.pubrel m) =>
+        (match find "broker-pub2" m 1 with
+         | some e => if s.t < e.tLast + cfg.retryDelay && !(s.snOuts.contains (.pubrel m)) then miss e "pubrel-not-delivered" else []
+         | none => [])
+      | some (.pubcomp m), _ =>
+        (match find "broker-pub2" m 2 with
+         | some e => if s.t < e.tLast + cfg.retryDelay && !(s.mqOuts.contains (.pubcomp m)) then miss e "pubcomp-not-relayed" else []
+         | none => [])
+      | _, _ => []
+    -- bookkeeping: close / advance / open
+    let open_ : List Exchg := match s.snIn, s.mqIn with
+      | _, some (.puback m) => open_.filter fun (e : Exchg) => !(e.kind == "client-pub1" && e.mid == m)
+      | _, some (.suback m _ _) => open_.filter fun (e : Exchg) => !(e.kind == "subscribe" && e.mid == m)
+      | some (.puback _ m _), _ => open_.filter fun (e : Exchg) => !(e.kind == "broker-pub1" && e.mid == m)
+      | some (.pubrec m), _ => open_.map fun (e : Exchg) => if e.kind == "broker-pub2" && e.mid == m && e.stage == 0 && s.mqOuts.contains (.pubrec m) then { e with stage := 1, tLast := s.t } else e
+      | _, some (.pubrel m) => open_.map fun (e : Exchg) => if e.kind == "broker-pub2" && e.mid == m && e.stage == 1 && s.snOuts.contains (.pubrel m) then { e with stage := 2, tLast := s.t } else e
+      | some (.pubcomp m), _ => open_.filter fun (e : Exchg) => !(e.kind == "broker-pub2" && e.mid == m && e.stage == 2)
+      | _, _ => open_
+    -- (re)transmissions by timers keep an exchange alive
+    let open_ := s.later.foldl (fun op (t, o) => match o with
+      | .sn b => (match decode b with
+        | .ok (_, .publish _ _ _ _ _ m _) => op.map fun (e : Exchg) => if e.mid == m && (e.kind == "broker-pub1" || (e.kind == "broker-pub2" && e.stage == 0)) then { e with tLast := t } else e
+        | .ok (_, .pubrel m) => op.map fun (e : Exchg) => if e.mid == m && e.kind == "broker-pub2" && e.stage == 2 then { e with tLast := t } else e
+        | _ => op)
+      | _ => op) open_
+    let newOpen : List Exchg := (match s.snIn with
+      | some (.publish _ 1 _ _ _ m _) => if s.mqOuts.any (fun p => match p with | .publish .. => true | _ => false) then [{ kind := "client-pub1", mid := m, t0 := s.t, tLast := s.t }] else []
+      | some (.subscribe _ _ _ m _ _) => if s.mqOuts.any (fun p => match p with | .subscribe .. => true | _ => false) then [{ kind := "subscribe", mid := m, t0 := s.t, tLast := s.t }] else []
+      | _ => []) ++
+      (s.snOuts.filterMap fun p => match p with
+        | .publish _ 1 _ _ _ m _ => some { kind := "broker-pub1", mid := m, t0 := s.t, tLast := s.t }
+        | .publish _ 2 _ _ _ m _ => some { kind := "broker-pub2", mid := m, t0 := s.t, tLast := s.t }
+        | _ => none)
+    -- a new exchange under a key replaces the bookkeeping of an older one of the same kind
+    let open_ := (open_.filter fun (e : Exchg) => !(newOpen.any fun (n : Exchg) => n.kind == e.kind && n.mid == e.mid)) ++ newOpen
+    let opens := opens ++ (newOpen.map fun (e : Exchg) => (e.mid, e.t0, e.kind)) ++
+      (match s.snIn with
+        | some (.publish _ 2 _ _ _ m _) => if s.mqOuts.isEmpty then [] else [(m, s.t, "client-pub2")]
+        | some (.publish _ 0 _ _ _ m _) => if s.mqOuts.isEmpty || m == 0 then [] else [(m, s.t, "client-pub0")]
+        | _ => []) ++
+      (s.snOuts.filterMap fun p => match p with | .register _ m _ => some (m, s.t, "gw-register") | _ => none)
+    (h.afterStep s, open_, opens, vs ++ v)) ({ endedAt := endedAtOf tr }, [], [], [])
+  vs
 
 /-! ## C25 / leaks are decided on the raw log by the driver (panic and leak lines) -/
 
